@@ -98,6 +98,15 @@ def gen(rng: random.Random, k: int, tier: str) -> dict:
             nbins = rng.choice([1, 1, 1, 2])
             s, b, mu = _counting(rng, nbins)
             ts = rng.choice(["qtilde", "qtilde", "q0", "q"])
+            poi_hi = None
+            if ts != "q0" and rng.random() < 0.2:
+                # the caller widens the POI range and tests a value beyond the default upper bound (10)
+                poi_hi = 40.0
+                while True:
+                    s = [round(rng.uniform(0.3, 1.2), 3) for _ in range(nbins)]
+                    mu = round(rng.uniform(11.0, 25.0), 3)
+                    if all(abs((mu * si + bi) - round(mu * si + bi)) > 0.25 for si, bi in zip(s, b)):
+                        break
             lam_gen = [(1.0 if ts == "q0" else mu) * si + bi for si, bi in zip(s, b)]
             nobs = [max(0, int(round(l + rng.choice([-1.5, -0.7, 0, 0.6, 1.4, 2.5]) * math.sqrt(l)))) for l in lam_gen]
             if rng.random() < 0.08:
@@ -106,9 +115,9 @@ def gen(rng: random.Random, k: int, tier: str) -> dict:
             heavy = cur[0] != "numpy"
             ops.append({"op": "toys", "s": s, "b": b, "mu": 0.0 if ts == "q0" else mu, "nobs": nobs, "test_stat": ts,
                         "ntoys": rng.choice([40, 60]) if heavy else rng.choice([200, 400] if mode == "scripted" else [150, 300, 500]),
-                        "mode": mode, "seed": rng.randrange(1 << 30), "route": rng.choice(["calculator", "calculator", "hypotest"]),
+                        "mode": mode, "seed": rng.randrange(1 << 30), "route": rng.choice(["calculator", "calculator", "hypotest"]), "poi_hi": poi_hi,
                         # a POI scan on ONE calculator object: distributions() is first called at another mu
-                        "scan_first": (round(mu * rng.choice([0.5, 2.0]), 3) if ts != "q0" and rng.random() < 0.3 else None),
+                        "scan_first": (round(mu * (rng.choice([0.5, 2.0]) if poi_hi is None else rng.choice([0.5, 0.8])), 3) if ts != "q0" and rng.random() < 0.3 else None),
                         # order of the calls in a scan: per-mu (statistic, distributions) or all observed statistics first
                         "scan_order": rng.choice(["interleaved", "stats_first", "stats_first"])})
         else:
@@ -440,7 +449,11 @@ class World:
         model = self._counting_model(s, b)
         data = np.asarray(op["nobs"], dtype=np.float64)
         sig = {"cls": "toys", "mode": op["mode"], "test_stat": ts}
-        q_obs_ref = C.stat(ts, mu, op["nobs"], s, b)
+        hi = op.get("poi_hi") or 10.0
+        bkw = {"par_bounds": [(0.0, hi)]} if op.get("poi_hi") else {}
+        if bkw:
+            ctx.probe("toys_callers_poi_bounds")
+        q_obs_ref = C.stat(ts, mu, op["nobs"], s, b, 0.0, hi)
         try:
             if op["mode"] == "scripted":
                 self._do_script("stratified")
@@ -450,7 +463,7 @@ class World:
                 if op["route"] == "hypotest":
                     ctx.probe("hypotest_route")
                     res = pyhf.infer.hypotest(mu, data, model, calctype="toybased", ntoys=N, test_stat=ts,
-                                              return_tail_probs=True, return_calculator=True, track_progress=False)
+                                              return_tail_probs=True, return_calculator=True, track_progress=False, **bkw)
                     calc = res[-1]
                     if op["mode"] == "scripted":
                         self.script_calls = 0
@@ -468,7 +481,7 @@ class World:
                               dict(sig, what="hypotest_vs_calculator"),
                               lambda: f"hypotest tail probs ({h_clsb},{h_clb}) differ from the calculator's on identical draws ({clsb},{clb})")
                 else:
-                    calc = pyhf.infer.calculators.ToyCalculator(data, model, ntoys=N, test_stat=ts, track_progress=False)
+                    calc = pyhf.infer.calculators.ToyCalculator(data, model, ntoys=N, test_stat=ts, track_progress=False, **bkw)
                     q_first = None
                     if op.get("scan_first") is not None and op.get("scan_order") == "stats_first":
                         # the observed statistics of the whole scan first, the toy distributions afterwards: the last
@@ -526,8 +539,8 @@ class World:
         delta = (1e-2 if self.reg[1] == "32b" else 1e-6) * max(1.0, q_obs_ref)
         mu_alt = 1.0 if ts == "q0" else 0.0
         cache = {}
-        lo_sb, hi_sb = C.tail(ts, mu, q_obs_ref, op["nobs"], s, b, mu, delta, cache=cache)
-        lo_b, hi_b = C.tail(ts, mu, q_obs_ref, op["nobs"], s, b, mu_alt, delta, cache=cache)
+        lo_sb, hi_sb = C.tail(ts, mu, q_obs_ref, op["nobs"], s, b, mu, delta, hi=hi, cache=cache)
+        lo_b, hi_b = C.tail(ts, mu, q_obs_ref, op["nobs"], s, b, mu_alt, delta, hi=hi, cache=cache)
         ctx.mark_nontrivial(["toys", op["mode"], self.reg, ts, len(s), core.short(core.canon([s, b, mu, op["nobs"]]), 8)])
         ctx.state(["toys", op["mode"], self.reg, ts, len(s), op["route"]])
         if op["mode"] == "scripted":
